@@ -38,14 +38,17 @@ Fixpoint map_c {A B} (f : A -> res B) (l : list A) : res (list B) :=
   | [] => Ok []
   | x :: r => do y <- f x; do ys <- map_c f r; Ok (y :: ys)
   end.
-(* newTTIBlock, 696-721: i.InlineStyle at 702 and 707; the Go cue list holds *Item: a nil element is dereferenced there
-   without a guard (see the unguarded example) *)
-Definition item_c (p : option gitem) : res witem :=
-  do i <- deref p 702;
+(* newTTIBlock, 696-721: i.InlineStyle at 702 and 707, through i *Item.  WriteToSTL (943) first replaces the cue list by
+   nonNilItems(s.Items) (subtitles.go): the loop, newGSIBlock (TNB / TNS, TCF from Items[0]) and the "nothing to write"
+   test all see the list WITHOUT its nil elements, so i is never nil at 702.  [items_c] is that: Kit.Chk.somes, then the
+   guarded flattening of each element; [items_unguarded_c] is the code before that filter existed (a guard dropped). *)
+Definition item_c (i : gitem) : res witem :=
   do j <- just_c (gi_style i); do v <- vp_c (gi_style i);
   do ls <- map_c (map_c run_c) (gi_lines i);
   Ok (mkWitem (gi_st i) (gi_en i) j v ls).
-Definition items_c (l : list (option gitem)) : res (list witem) := map_c item_c l.
+Definition items_c (l : list (option gitem)) : res (list witem) := map_c item_c (somes l).
+Definition item_unguarded_c (p : option gitem) : res witem := do i <- deref p 702; item_c i.
+Definition items_unguarded_c (l : list (option gitem)) : res (list witem) := map_c item_unguarded_c l.
 
 (* the unchecked flattening (what the harness's projection does) *)
 Definition run_flat (li : gline_item) : wrun :=
@@ -57,3 +60,9 @@ Definition run_flat (li : gline_item) : wrun :=
 Definition item_flat (i : gitem) : witem :=
   mkWitem (gi_st i) (gi_en i) (match gi_style i with Some s => gs_just s | None => None end)
           (match gi_style i with Some s => gs_pos s | None => None end) (map (map run_flat) (gi_lines i)).
+
+(* WriteToSTL on the Go-shaped cue list ([]*Item with nil elements and nil-able style pointers): the checked writer of
+   Model/StlC.v on the flattened list of the non-nil elements *)
+From Astisub Require Import Model.StlC.
+Definition write_stl_items_c (now : str) (md : option wmeta) (l : list (option gitem)) : res str :=
+  do items <- items_c l; write_stl_c now md items.
